@@ -183,4 +183,13 @@ def resize(sx, a, target_width, zeros):
     tw = w + zeros if target_width is None else target_width
     sx.require(w + zeros <= tw)
     sx.domain(zeros >= 0)
+    if getattr(getattr(sx, "ctx", None), "arith_hints", False):
+        # proof hints only (instances of proved lemmas / true facts about 2**n, no change of meaning):
+        # the scaled value stays within 2**(w-1+zeros) resp. 2**(w+zeros)
+        if k is Signed:
+            sx.lemma("scale-bound", ival(a), -P2(sym.to_int(w) - 1), P2(sym.to_int(w) - 1) - 1, P2(zeros))
+            sx.pow2_facts(sym.to_int(w) - 1 + zeros, sym.to_int(tw) - 1, tw, products=[(sym.to_int(w) - 1, zeros)])
+        else:
+            sx.lemma("scale-bound", ival(a), 0, P2(w) - 1, P2(zeros))
+            sx.pow2_facts(sym.to_int(w) + zeros, tw, products=[(w, zeros)])
     return mk(k, tw, ival(a) * P2(zeros))
